@@ -135,7 +135,7 @@ theorem c06_savepoint_released (cfg : Cfg) (s : St) (body : List Ev)
   exact ⟨⟨rfl, rfl, rfl, rfl⟩, rfl⟩
 
 /-- what a rollback to a savepoint leaves of the unit of work: what it knew at SAVEPOINT, with an empty cache -/
-def uowAtSavepoint (u : Option Uow) : Option Uow := u.map (fun u => { u with vobjs := [] })
+def uowAtSavepoint (u : Option Uow) : Option Uow := u.map (fun u => { u with vobjs := [], lookup := true })
 
 /-- the whole state after a rolled-back savepoint bracket: only the error flag is the body's -/
 theorem sp_rolled_back_eq (cfg : Cfg) (s : St) (body : List Ev)
@@ -171,7 +171,8 @@ theorem c06_savepoint_no_flush_corrected (cfg : Cfg) (s : St) :
     run cfg s [.spBegin, .spRollback] = { s with uow := uowAtSavepoint s.uow } := by
   cases s; rfl
 
-theorem sp_no_flush_clean (cfg : Cfg) (s : St) (hv : s.uowD.vobjs = []) (hp : s.uowD.pending = []) :
+theorem sp_no_flush_clean (cfg : Cfg) (s : St) (hv : s.uowD.vobjs = []) (hp : s.uowD.pending = [])
+    (hl : s.uow.isSome → s.uowD.lookup = true) :
     run cfg s [.spBegin, .spRollback] = s := by
   rw [c06_savepoint_no_flush_corrected]
   cases s with
@@ -180,9 +181,10 @@ theorem sp_no_flush_clean (cfg : Cfg) (s : St) (hv : s.uowD.vobjs = []) (hp : s.
     | none => rfl
     | some u =>
       cases u with
-      | mk cur ops vobjs pending =>
-        simp only [St.uowD, Option.getD_some] at hv hp
-        subst hv hp
+      | mk cur ops vobjs pending lookup =>
+        simp only [St.uowD, Option.getD_some] at hv hp hl
+        have hl' := hl rfl
+        subst hv hp hl'
         rfl
 
 /-- the old statement of `c06_savepoint_no_flush` fails on a state with a non-empty cache -/
